@@ -249,7 +249,8 @@ def analysis(cfg, d, keep_raw=False, models_in=None):
         model = mokapot.Model(LinearSVC(dual=False, C=1.0), train_fdr=0.2)
     else:
         model = PercolatorModel(train_fdr=0.2, rng=seed)
-    psms, models, scores, descs = brew([ds], model=model, test_fdr=0.2, folds=k, max_workers=w, rng=seed)
+    psms, models, scores, descs = brew([ds], model=model, test_fdr=0.2, folds=k, max_workers=w, rng=seed,
+                                       **({"ensemble": True} if cfg.get("ensemble") else {}))
     out = d / "out"
     out.mkdir(exist_ok=True)
     assign_confidence(psms, max_workers=w, scores=scores, descs=descs, eval_fdr=0.2, dest_dir=out, prefixes=[None],
@@ -295,7 +296,8 @@ def _case_of(diffs):
 
 def base_cfg(seed, data_seed=3, n_spec=150, folds=3, workers=1, fmt="parquet", proteins=None, global_seed=None,
              model=None, **inputs):
-    """inputs: fasta_names (several FASTA files), n_feat / nan_cols / col_chunk / row_chunk / feat_names / nan_tail
+    """inputs: ensemble (True: brew(ensemble=True), every PSM gets the mean score of all fold models), fasta_names
+    (several FASTA files), n_feat / nan_cols / col_chunk / row_chunk / feat_names / nan_tail
     (feature columns with missing values); only the keys that are given are put into the configuration"""
     if proteins:
         fmt = "text"        # protein-level output cannot be produced from Parquet input (proteins.parquet is written as csv)
@@ -315,12 +317,12 @@ def check_same_process(tier, seed):
                 dict(fmt="parquet", workers=1, model="plain")]
     if tier != "quick":
         variants += [dict(fmt="text", workers=1, folds=2), dict(fmt="parquet", workers=4, folds=4),
-                     dict(fmt="text", workers=2, proteins="with_decoys")]
+                     dict(fmt="text", workers=2, proteins="with_decoys"), dict(fmt="parquet", workers=2, ensemble=True)]
     ck = Check("repeat_in_process", "mokapot.read_pin + brew + assign_confidence (+ OnDiskPsmDataset._split)",
                "%d analysis seeds x %d configurations (format, workers, folds, PercolatorModel(rng=seed) or a plain "
                "Model(LinearSVC) built without rng%s), 300 PSMs / 150 spectra, 3 features; each "
                "run twice in one process, the global numpy RNG seeded differently before each run"
-               % (len(seeds), len(variants), "" if tier == "quick" else ", protein level"),
+               % (len(seeds), len(variants), "" if tier == "quick" else ", protein level, ensemble=True"),
                "np.array_equal on folds / coefficients / scaler / scores, byte equality of every result file; "
                "non-trivial = all fold models trained and the learned score (not a raw feature) is used")
     with scratch("c08a_") as d:
@@ -700,44 +702,66 @@ def check_input_sessions(tier, seed, pending=None):
 
 
 # ----------------------------------------------------------------------------------------------- (c) model order
+def order_plan(tier, seed):
+    """[(analysis seed, folds, workers, ensemble)]: the first runs whose models are fed back in all k! orders.  With
+    ensemble=True every PSM is scored by ALL models and the scores are averaged, so the order in which the caller
+    hands the models over must not even change the last bit of the mean (floating-point addition is not associative:
+    for k >= 3 an order other than the fold order up to a swap of the first two sums differently)."""
+    if tier == "quick":
+        return [(seed, 2, 1, False), (seed, 3, 1, False), (seed, 3, 1, True)]
+    plan = [(s, k, 1, False) for s in (seed, seed + 1) for k in (2, 3, 4)]
+    plan += [(s, k, w, True) for s, w in ((seed, 1), (seed + 1, 2)) for k in (2, 3, 4)]
+    return plan + [(seed, 3, 2, False)]
+
+
 def check_model_order(tier, seed):
     import numpy as np
-    ks = [2, 3] if tier == "quick" else [2, 3, 4]
-    seeds = [seed] if tier == "quick" else [seed, seed + 1]
-    ck = Check("model_order", "mokapot.brew(psms, model=[trained models in any order], folds=k, rng=seed)",
-               "all k! orders of the k models returned by a first run, k in %s, %d seed(s), 300 PSMs" % (ks, len(seeds)),
-               "scores of the second run must be np.array_equal to the first run's; non-trivial = a non-identity order "
-               "of trained models with pairwise different coefficients")
+    plan = order_plan(tier, seed)
+    ck = Check("model_order", "mokapot.brew(psms, model=[trained models in any order], folds=k, rng=seed"
+               "[, ensemble=True])",
+               "all k! orders of the k models returned by a first run; per-fold scoring (ensemble=False): k in %s, "
+               "%d seed(s); ensemble scoring (ensemble=True in both runs, mean of all models for every PSM): k in %s, "
+               "%d seed(s); max_workers in %s; 300 PSMs"
+               % (sorted({k for _, k, _, e in plan if not e}), len({s for s, _, _, e in plan if not e}),
+                  sorted({k for _, k, _, e in plan if e}), len({s for s, _, _, e in plan if e}),
+                  sorted({w for _, _, w, _ in plan})),
+               "scores of the second run must be np.array_equal (bit for bit) to the first run's, result files "
+               "byte-equal; non-trivial = a non-identity order of trained models with pairwise different coefficients")
     with scratch("c08c_") as d:
-        for s in seeds:
-            for k in ks:
-                cfg = base_cfg(s, folds=k)
-                first = analysis(cfg, d / ("k%d_s%d_first" % (k, s)), keep_raw=True)
-                models = first["raw"]["models"]
-                if not first["trained"]:        # nothing to feed back: brew rejects untrained models by contract
-                    ck.case(("order", s, k, "first run left a fold model untrained"), nontrivial=False)
+        for s, k, w, ens in plan:
+            cfg = base_cfg(s, folds=k, workers=w, ensemble=ens or None)
+            tag = "-ensemble" if ens else ""
+            name = "k%d_s%d_w%d%s" % (k, s, w, tag)
+            first = analysis(cfg, d / (name + "_first"), keep_raw=True)
+            models = first["raw"]["models"]
+            if not first["trained"]:        # nothing to feed back: brew rejects untrained models by contract
+                ck.case(("order", s, k, w, ens, "first run left a fold model untrained"), nontrivial=False)
+                continue
+            coefs = [model_bytes(m)[3] for m in models]
+            distinct = first["trained"] and len(set(coefs)) == len(coefs)
+            for perm in itertools.permutations(range(k)):
+                ck.case(("order", s, k, w, ens, perm), nontrivial=distinct and perm != tuple(range(k)))
+                try:
+                    again = analysis(cfg, d / ("%s_%s" % (name, "".join(map(str, perm)))), keep_raw=True,
+                                     models_in=[copy.deepcopy(models[j]) for j in perm])
+                except Exception as e:
+                    ck.violation("model-order%s-fails:%s" % (tag, type(e).__name__),
+                                 "%s: %s" % (type(e).__name__, str(e)[:150]), {"cfg": cfg, "perm": list(perm)})
                     continue
-                coefs = [model_bytes(m)[3] for m in models]
-                distinct = first["trained"] and len(set(coefs)) == len(coefs)
-                for perm in itertools.permutations(range(k)):
-                    ck.case(("order", s, k, perm), nontrivial=distinct and perm != tuple(range(k)))
-                    try:
-                        again = analysis(cfg, d / ("k%d_s%d_%s" % (k, s, "".join(map(str, perm)))), keep_raw=True,
-                                         models_in=[copy.deepcopy(models[j]) for j in perm])
-                    except Exception as e:
-                        ck.violation("model-order-fails:" + type(e).__name__, "%s: %s" % (type(e).__name__, str(e)[:150]),
-                                     {"cfg": cfg, "perm": list(perm)})
-                        continue
-                    same = np.array_equal(first["raw"]["scores"], again["raw"]["scores"]) \
-                        and first["raw"]["descs"] == again["raw"]["descs"]
-                    if not same:
-                        n = int((first["raw"]["scores"] != again["raw"]["scores"]).sum())
-                        ck.violation("model-order-identity" if perm == tuple(range(k)) else "model-order-permuted",
-                                     "models fed back in order %s: %d of %d scores differ from the first run"
-                                     % (list(perm), n, len(again["raw"]["scores"])), {"cfg": cfg, "perm": list(perm)})
-                    elif _diff(first, again):
-                        ck.violation("model-order-files", "models fed back in order %s: %s differ"
-                                     % (list(perm), _diff(first, again)), {"cfg": cfg, "perm": list(perm)})
+                a, b = first["raw"]["scores"], again["raw"]["scores"]
+                same = np.array_equal(a, b) and first["raw"]["descs"] == again["raw"]["descs"]
+                if not same:
+                    n = int((a != b).sum()) if a.shape == b.shape else -1
+                    gap = float(np.max(np.abs(a - b))) if a.shape == b.shape else float("nan")
+                    ck.violation(("model-order-identity" if perm == tuple(range(k)) else "model-order-permuted") + tag,
+                                 "models (folds %s) fed back in order %s%s: %d of %d scores differ from the first run "
+                                 "(max abs difference %.3g)"
+                                 % ([m.fold for m in models], list(perm), ", ensemble=True" if ens else "", n, len(b),
+                                    gap), {"cfg": cfg, "perm": list(perm)})
+                elif _diff(first, again):
+                    ck.violation("model-order-files" + tag, "models fed back in order %s%s: %s differ"
+                                 % (list(perm), ", ensemble=True" if ens else "", _diff(first, again)),
+                                 {"cfg": cfg, "perm": list(perm)})
     return ck
 
 
@@ -762,7 +786,7 @@ def REPLAY(check_name, violation):
             again = analysis(cfg, d / "again", keep_raw=True,
                              models_in=[copy.deepcopy(first["raw"]["models"][j]) for j in inp["perm"]])
             same = np.array_equal(first["raw"]["scores"], again["raw"]["scores"]) and not _diff(first, again)
-            return {"violated": not same, "detail": _diff(first, again)}
+            return {"violated": not same, "detail": _diff(first, again)}      # cfg["ensemble"] is honoured by analysis
         if "hashseeds" in inp:
             hs = inp["hashseeds"] if len(inp["hashseeds"]) > 1 else inp["hashseeds"] * 2
             r0, r1 = run_worker(cfg, hs[0]), run_worker(cfg, hs[1])
@@ -793,6 +817,10 @@ if __name__ == "__main__":
           "not varied",
           "PEPs with the default 'qvality' algorithm (hist_nnls cannot run with the installed SciPy)",
           "PercolatorModel(train_fdr=0.2), test_fdr = eval_fdr = 0.2 on 300 generated PSMs",
+          "model order with ensemble=True: both the first run and the re-run use ensemble=True (the first run's scores "
+          "are then the mean over all fold models, which is what the re-run has to reproduce); the models are fed "
+          "back as deep copies; ensemble scoring is exercised in the model-order check%s"
+          % (" only" if a.tier == "quick" else " and in repeat_in_process"),
           "target-only FASTA: np.random.seed(seed) is called before the analysis, as mokapot's CLI does, because "
           "match_decoy draws from the global RNG by design",
           "several FASTA files: the list is given in one fixed order and by the same (relative) file names in every "
